@@ -29,19 +29,25 @@ class Hold(BaseException):
 def work(k1: str, k2: str, other: int = 0) -> int:
     raise Hold()
 
+def work2(k1: str, k2: str, other: int = 0) -> int:
+    raise Hold()
+
 ARGS = [("a", "b", 0), ("a", "b", 1), ("a", "d", 0), ("x", "b", 0)]
 MODES = ["DISABLED", "TASK", "ARGUMENTS", "KEYS"]
-# ops: 0-3 submit ARGS[i]; 4 batch [A, A]; 5 batch [A, B]; 6 poll+start r1; 7 poll+start r2; 8 finish oldest RUNNING; 9 retry oldest RUNNING
-NOPS = 10
+# ops: 0-3 submit ARGS[i]; 4 batch [A, A]; 5 batch [A, B]; 6 poll+start r1; 7 poll+start r2; 8 finish oldest RUNNING; 9 retry oldest RUNNING;
+# 10 submit ARGS[0] to a SECOND task with the same parameter names and options
+NOPS = 11
 
-def keyfn(mode, args):
+def keyfn(mode, targs):
+    """the concurrency key always includes the task: (task, ...)"""
+    tname, args = targs
     if mode == "DISABLED":
         return None
     if mode == "TASK":
-        return ()
+        return (tname,)
     if mode == "ARGUMENTS":
-        return args
-    return (args[0],)           # KEYS with key_arguments = ("k1",)
+        return (tname, args)
+    return (tname, args[0])     # KEYS with key_arguments = ("k1",)
 
 def world(kind, mode, reroute):
     reset_uuid()
@@ -51,7 +57,9 @@ def world(kind, mode, reroute):
         opts["key_arguments"] = ("k1",)
     task = app.task(**opts)(work)
     warm_task(task)
-    return app, task
+    task2 = app.task(**opts)(work2)
+    warm_task(task2)
+    return app, task, task2
 
 def queue_snapshot(app):
     out = []
@@ -67,7 +75,7 @@ def queue_snapshot(app):
 def run_hist(kind, mode_i, reroute, ops):
     global LAST_DETAIL
     mode = MODES[mode_i]
-    app, task = world(kind, mode, bool(reroute))
+    app, task, task2 = world(kind, mode, bool(reroute))
     orch = app.orchestrator
     ctxs = {"r1": runner_ctx("r1"), "r2": runner_ctx("r2")}
     args_of = {}       # invocation id -> args
@@ -83,13 +91,17 @@ def run_hist(kind, mode_i, reroute, ops):
     for op in ops:
         if op <= 3:
             inv = task(*ARGS[op])
-            args_of[inv.invocation_id] = ARGS[op]; inv_obj[inv.invocation_id] = inv
+            args_of[inv.invocation_id] = ("work", ARGS[op]); inv_obj[inv.invocation_id] = inv
             log.append(("submit", ARGS[op]))
+        elif op == 10:
+            inv = task2(*ARGS[0])
+            args_of[inv.invocation_id] = ("work2", ARGS[0]); inv_obj[inv.invocation_id] = inv
+            log.append(("submit2", ARGS[0]))
         elif op in (4, 5):
             pair = [ARGS[0], ARGS[0]] if op == 4 else [ARGS[0], ARGS[2]]
             group = task.parallelize(pair)
             for inv, a in zip(group.invocations, pair):
-                args_of[inv.invocation_id] = a; inv_obj[inv.invocation_id] = inv
+                args_of[inv.invocation_id] = ("work", a); inv_obj[inv.invocation_id] = inv
             log.append(("batch", pair))
         elif op in (6, 7):
             rn = "r1" if op == 6 else "r2"
@@ -149,9 +161,11 @@ def run_hist(kind, mode_i, reroute, ops):
     LAST_DETAIL = {"log": log}
     return True
 
-def both(mode_i, reroute, ops):
-    mode_i = pick(mode_i, 0, 3); reroute = pick(reroute, 0, 1)
+def both(mode_i, reroute, ops, warm=0):
+    mode_i = pick(mode_i, 0, 3); reroute = pick(reroute, 0, 1); warm = pick(warm, 0, 1)
     ops = [pick(o, 0, NOPS - 1) for o in ops]
+    if warm:
+        ops = [0, 6] + ops       # reachable pre-state: work(a,b,0) submitted, claimed and RUNNING under r1
     with NoTracing():
         return run_hist("mem", mode_i, reroute, ops) and run_hist("sqlite", mode_i, reroute, ops)
 '''
@@ -162,7 +176,7 @@ def hist_m__M___o__K__(reroute: int, o2: int, o3: int__EXTRA_SIG__) -> bool:
     pre: 0 <= reroute <= 1 and 0 <= o2 < NOPS and 0 <= o3 < NOPS__EXTRA_PRE__
     post: _
     """
-    return both(__M__, reroute, [__K__, o2, o3__EXTRA_ARG__])
+    return both(__M__, reroute, [__K__, o2, o3__EXTRA_ARG__], __WARM__)
 '''
 
 EXTRA = r'''
@@ -182,7 +196,7 @@ def canary_keys(o3: int) -> bool:
     # wrong spec on purpose: KEYS modelled as ARGUMENTS -> (a,b,0) running and (a,d,0) must not block: refuted
     global keyfn
     old = keyfn
-    keyfn = lambda mode, args: args if mode == "KEYS" else old(mode, args)
+    keyfn = lambda mode, targs: targs if mode == "KEYS" else old(mode, targs)
     try:
         return both(3, 0, [0, 6, 2, 6, o3])
     finally:
@@ -224,12 +238,12 @@ def run(ctx: Ctx) -> None:
     src = SRC.replace("__TOLERATE__", repr(tolerate))
     conds = []
     for m in range(4):
-        for k in range(10):
+        for k in range(11):
             f = H.replace("__M__", str(m)).replace("__K__", str(k))
             if thorough:
-                f = f.replace("__EXTRA_SIG__", ", o4: int").replace("__EXTRA_PRE__", " and 0 <= o4 < NOPS").replace("__EXTRA_ARG__", ", o4")
+                f = f.replace("__EXTRA_SIG__", ", o4: int, warm: int").replace("__EXTRA_PRE__", " and 0 <= o4 < NOPS and 0 <= warm <= 1").replace("__EXTRA_ARG__", ", o4").replace("__WARM__", "warm")
             else:
-                f = f.replace("__EXTRA_SIG__", "").replace("__EXTRA_PRE__", "").replace("__EXTRA_ARG__", "")
+                f = f.replace("__EXTRA_SIG__", "").replace("__EXTRA_PRE__", "").replace("__EXTRA_ARG__", "").replace("__WARM__", "1")
             src += f
             conds.append(Cond(f"hist_m{m}_o{k}", "confirm", 3000 if thorough else 600, keyfn=_key_from_replay))
     src += EXTRA
@@ -248,7 +262,8 @@ def run(ctx: Ctx) -> None:
         "Mem/SQLite get_existing_invocations + index_arguments_for_concurrency_control",
     ]
     ctx.bounds = {
-        "history": f"{4 if thorough else 3} ops over 10 letters (submit 4 argument tuples, 2 batch shapes, poll+start by r1 / r2, finish, retry)",
+        "history": ("prefix [submit work(a,b,0); poll+start by r1] (thorough: with and without) + " + f"{4 if thorough else 3} free ops over 11 letters "
+                    "(submit 4 argument tuples, 2 batch shapes, poll+start by r1 / r2, finish, retry, submit to a second task with the same parameters)"),
         "modes": "DISABLED, TASK, ARGUMENTS, KEYS(k1) x reroute_on_concurrency_control",
         "runners": "two runners polling sequentially (their simultaneous check-then-act is the SCHED part / known finding)",
     }
